@@ -48,7 +48,7 @@ class Check(PropertyCheck):
     run_expr = "run_c13_case"
     case_type = "(N * Z * list N)"
     shard = 300
-    rule = ("sessions on ONE running application per version (joins of devices with manufacturer-specific address prefixes included); "
+    rule = ("sessions on ONE running application per version (streams of callbacks sharing type, sender and APS counter; joins of devices with manufacturer-specific address prefixes included); "
             "every protocol version 4..14 x incomingMessageHandler with all 7 defined message types and undefined ones, random APS "
             "fields, endpoints, sender, LQI 0..255, RSSI -128..127, payload lengths 0..maximum (and a long one), and trustCenterJoinHandler "
             "with every device-update status x every join decision; frames built by an independent byte-level encoder; non-trivial = a "
@@ -111,6 +111,27 @@ class Check(PropertyCheck):
                      "timestamp": rng.randrange(1 << 32), "payload": [rng.randrange(256) for _ in range(n)],
                      "hseq": rng.randrange(256)}
                 cases.append({"v": v, "kind": "incoming", "m": m})
+            # streams on the one running application: consecutive deliverable callbacks that share message type, sender
+            # and APS counter (a device with a constant or restarted counter) but differ elsewhere, with ignored types
+            # and other senders in between; every one of them must still yield its own packet
+            for _ in range(3 if tier == "quick" else 40):
+                base = dict(cases[-1]["m"]) if cases else None
+                ty = rng.choice([0, 2, 4])
+                sender, aseq = rng.randrange(65536), rng.randrange(256)
+                for j in range(rng.randrange(2, 6)):
+                    m = {"type": ty, "profile": rng.randrange(65536), "cluster": rng.randrange(65536),
+                         "src_ep": rng.randrange(256), "dst_ep": rng.randrange(256), "options": rng.randrange(65536),
+                         "group": rng.randrange(65536), "seq": aseq, "sender": sender,
+                         "eui64": [rng.randrange(256) for _ in range(8)], "binding": rng.randrange(256),
+                         "address": rng.randrange(256), "lqi": rng.randrange(256), "rssi": rng.randrange(-128, 128),
+                         "timestamp": rng.randrange(1 << 32), "payload": [rng.randrange(256) for _ in range(rng.randrange(0, 20))],
+                         "hseq": rng.randrange(256)}
+                    cases.append({"v": v, "kind": "incoming", "m": m})
+                    if rng.random() < 0.4:
+                        m2 = dict(m, type=rng.choice([1, 3, 5, 6]), hseq=rng.randrange(256))
+                        cases.append({"v": v, "kind": "incoming", "m": m2})
+                    if rng.random() < 0.3:
+                        cases.append({"v": v, "kind": "incoming", "m": dict(m, hseq=rng.randrange(256))})   # exact repeat
             for status in (0, 1, 2, 3, 4, 5, 6, 7, 0xFF):
                 for decision in (0, 1, 2, 3, 0x7F):
                     ieee = [rng.randrange(256) for _ in range(8)]
@@ -135,6 +156,9 @@ class Check(PropertyCheck):
         while case["m"]["hseq"] in app._ezsp._protocol._awaiting:
             case["m"]["hseq"] = (case["m"]["hseq"] + 1) % 256
         data = self.frame(case)
+        hist = self.__dict__.setdefault("_hist", {}).setdefault(case["v"], [])
+        case["_preceding"] = list(hist[-6:])       # the application is stateful: the replay names what it saw just before
+        hist.append(data.hex())
         out = []
 
         async def go():
@@ -160,7 +184,10 @@ class Check(PropertyCheck):
         return {"events": out}
 
     def describe(self, case):
-        return case
+        d = {k: v for k, v in case.items() if not k.startswith("_")}
+        d["frame"] = self.frame(case).hex()
+        d["preceding_frames_on_this_application"] = case.get("_preceding", [])
+        return d
 
     def model_input(self, case):
         return f"({case['v']}, {OWN_NWK}%Z, [{';'.join(str(b) for b in self.frame(case))}])"
